@@ -2553,6 +2553,9 @@ impl Server {
             1
         };
         
+        // Meet the key's type up front: with count 0 the loop below never looks at the key
+        self.storage.zcard(db, key)?;
+        
         // Pop members with atomic operations
         let mut results = Vec::new();
         for _ in 0..count {
@@ -2600,6 +2603,9 @@ impl Server {
         } else {
             1
         };
+        
+        // Meet the key's type up front: with count 0 the loop below never looks at the key
+        self.storage.zcard(db, key)?;
         
         // Pop members with atomic operations
         let mut results = Vec::new();
